@@ -9,6 +9,7 @@ import itertools
 import random
 
 from ..rt import scen
+from . import regkernel
 from .rtcommon import HOWS, RT_ASSUMPTIONS, make_replay
 
 NAMES = ["AtMostOnce", "AdoptReturnsNone", "AdoptReturnsObserved", "ExactlyOnceObserved", "RightFlavour", "ArgsExact"]
@@ -94,5 +95,8 @@ def run(ctx):
     for allow, ss in groups.items():
         scen.run_family(ctx, ss, names=NAMES, allow=allow, mc_invariants=["AtMostOnce", "AdoptReturnsNone", "DiscardOnlyWhenShuttingDown"], mc_properties=["ExactlyOnceLive"], per_shape=14 if thorough else 4, depth=40, label="c03" + "".join(a[:2] for a in allow), extra_scenarios=(extra if first else ()))
         first = False
-    ctx.extra["rule"] = "shapes = flavour assignments of three payloads with argument tuples/dicts, one queued before start, two adopted afterwards from a thread or from inside a payload of each flavour; 0..2 services (one with a falsy instance) created before or after start; optionally a shutdown racing the submissions; TLC-simulated behaviours per shape + targeted adopt-while-closing scripts"
+    # the registration / start-up kernel at hook granularity: Registration.tla, every
+    # transition of its state graph forced onto the real MetaRunner by the gate scheduler
+    regkernel.run(ctx)
+    ctx.extra["rule"] = "shapes = flavour assignments of three payloads with argument tuples/dicts, one queued before start, two adopted afterwards from a thread or from inside a payload of each flavour; 0..2 services (one with a falsy instance) created before or after start; optionally a shutdown racing the submissions; TLC-simulated behaviours per shape + targeted adopt-while-closing scripts; plus forced schedules covering the transitions of Registration.tla (registration kernel at hook granularity)"
     ctx.assumptions = RT_ASSUMPTIONS + ["callers wait for the runner to report running before they adopt (the documented protocol); a submission that overlaps accept()'s own start-up is neither 'before' nor 'after' start (DESIGN 7.4)", "quiescence = the service loop has polled at least three more times after the last scripted action"]
